@@ -2,6 +2,32 @@ pub mod assembler;
 pub mod bit_value;
 pub mod parser;
 
+/// Removal of a field's bias that reports overflow (signed integer fields with a
+/// negative bias) instead of wrapping or panicking.
+pub trait SubBias: Sized {
+    fn sub_bias(self, bias: Self) -> Option<Self>;
+}
+macro_rules! impl_sub_bias {
+    (int: $($t:ty),*) => {
+        $(impl SubBias for $t {
+            #[inline]
+            fn sub_bias(self, bias: Self) -> Option<Self> {
+                self.checked_sub(bias)
+            }
+        })*
+    };
+    (float: $($t:ty),*) => {
+        $(impl SubBias for $t {
+            #[inline]
+            fn sub_bias(self, bias: Self) -> Option<Self> {
+                Some(self - bias)
+            }
+        })*
+    };
+}
+impl_sub_bias!(int: i8, i16, i32, i64, u8, u16, u32, u64);
+impl_sub_bias!(float: f32, f64);
+
 macro_rules! df {
     (
         id: $id:ident,
@@ -46,7 +72,10 @@ macro_rules! df {
                 let mut value = *value;
                 $(
                     if value >= $bias {
-                        value -= $bias;
+                        value = match $crate::df::SubBias::sub_bias(value, $bias) {
+                            Some(v) => v,
+                            None => return Err(RtcmError::OutOfRange),
+                        };
                     } else {
                         return Err(RtcmError::OutOfRange);
                     }
